@@ -53,7 +53,7 @@ def snapshot_any(obj):
     from reamber.algorithms.pattern.Pattern import Pattern
 
     if isinstance(obj, Pattern):
-        return dict(kind="pattern", df=snapshot(obj.df.astype(str)))
+        return dict(kind="pattern", df=snapshot(obj.df.astype(str)), dtypes=[str(t) for t in obj.df.dtypes])
     if isinstance(obj, (list, tuple)):
         return dict(kind="seq", items=[snapshot_any(x) for x in obj])
     try:
@@ -566,15 +566,121 @@ def _more_specs(game):
     return [("edge_values", edge), ("one_row_lists", one), ("all_empty", empty)]
 
 
+#: the dtype states the library itself leaves charts in (dimension 15): what a chart / mapset went through before it is used as an input
+STATES = ("rated", "stack_edit", "grown_from_empty", "append_item")
+
+
+def _apply_state(obj, state):
+    """rated             obj.rate(0.5): the copy a rate change returns (integer columns come back float-typed, bool columns object-typed)
+    stack_edit        an in-place edit through the stack (st.offset += 10): re-types the stacked lists in the same way
+    grown_from_empty  every non-empty list replaced by ListClass([]).append(list): the column types (and order) of the EMPTY list
+    append_item       every non-empty list replaced by list.append(list[0])"""
+    if state == "rated":
+        return obj.rate(0.5)
+    if state == "stack_edit":
+        st = obj.stack()
+        st.offset += 10
+        return obj
+    charts = obj.maps if _kind_of(obj) == "mapset" else [obj]
+    for m in charts:
+        for name, l in chart_lists(m).items():
+            if len(l):
+                setattr(m, name, type(l)([]).append(l) if state == "grown_from_empty" else l.append(l[0]))
+    return obj
+
+
+_FIELD_OVERRIDES = dict(
+    osu=dict(mode=3, circle_size=7.0, sample_set=2, tags="tag_a tag_b", slider_tick_rate=2),
+    qua=dict(mode="Keys7", tags=["tag_a", "tag_b"], initial_scroll_velocity=2.5),
+    sm=dict(chart_type="dance-solo", difficulty="Challenge", groove_radar=[0.1, 0.2, 0.3, 0.4, 0.5]),
+    bms=dict(ln_end_channel=b"ZY", exbpms={b"0A": 177.5, b"ZZ": 88.25}, samples={b"01": b"kick.wav", b"02": b"snare.wav", b"ZZ": b"crash.wav"},
+             misc={b"GENRE": b"genre value", b"SUBTITLE": b"subtitle value", b"SUBARTIST": b"subartist value", b"STAGEFILE": b"stage.png", b"BANNER": b"banner.png",
+                   b"TOTAL": b"300", b"RANK": b"3", b"DIFFICULTY": b"5", b"PLAYER": b"1"}),
+    sm_set=dict(display_bpm="150.000", bg_changes="0.000=bg.avi=1.000=1=0=0", fg_changes="8.000=fg.avi=1.000=1=0=0", selectable=False),
+    o2j_set=dict(genre=7, level=[3, 12, 25], event_count=[31, 32, 33], note_count=[41, 42, 43], measure_count=[51, 52, 53], package_count=[61, 62, 63],
+                 duration=[71, 72, 73], note_offset=[81, 82, 83]),
+)
+
+
+def _all_fields(obj, game):
+    """(dimension 14) every dataclass field of a chart / mapset non-default, non-empty and different from every other field of the same
+    type (values inside the field's domain where the file format restricts it)."""
+    from reamber.base.lists.TimedList import TimedList
+
+    over = _FIELD_OVERRIDES.get(game + ("_set" if _kind_of(obj) == "mapset" else ""), {})
+    for k, f in enumerate(dataclasses.fields(obj)):
+        if f.name in ("objs", "maps"):
+            continue
+        v = getattr(obj, f.name)
+        if isinstance(v, TimedList):
+            continue
+        if f.name in over:
+            new = copy.deepcopy(over[f.name])
+        elif isinstance(v, bool):
+            new = not v
+        elif isinstance(v, int):
+            new = 11 + 2 * k
+        elif isinstance(v, float):
+            new = 1.25 + k
+        elif isinstance(v, str):
+            new = f"{f.name} value"
+        elif isinstance(v, bytes):
+            new = f.name.encode("ascii") + b" value"
+        else:
+            continue  # None / lists / tables without an override keep what the builder gave them
+        setattr(obj, f.name, new)
+    return obj
+
+
+def _all_fields_spec(game):
+    """(dimension 14) a chart with every dataclass field set (`c14_all_fields`) and rows in which the game's own columns hold values that
+    differ from every other column of the row as far as the column's domain allows; objects of one list kind before the first / after the
+    last object of the others (dimension 17: a hit, an SV, a sample before the first tempo row; a tempo row and an SV after the last note)
+    and rows on other grids than the 1/96-beat family at 120 bpm (dimension 18: 500/32, 500/24 + 2000, 500/192 + 4000 ms)"""
+    sv = game in ("osu", "qua")
+    first = 1 if game == "bms" else 0
+    # (a note before the first tempo row has no measure position: only in the games whose files hold times)
+    sp = std_spec(game, hits=[(-250 if sv else 250, first), (15.625, 1 + first), (2020.8333, 2), (4002.6042, 3), (5000, 2)], holds=[(1000, 3, 515.625), (6000, first, 250)],
+                  bpms=[(0, 120), (2015.625, 177.5), (9000, 90)], **(dict(svs=[(-100, 1.25), (3000, 0.75), (9500, 2.0)]) if sv else {}),
+                  **(dict(mines=[(750, 1)], rolls=[(7000, 2, 300)], fakes=[(10, 0)], lifts=[(20, 1)], keysounds=[(30, 3)], stops=[(-50, 125), (9100, 250)]) if game == "sm" else {}),
+                  **(dict(samples=[(-300, "first.wav", 40), (9900, "last.wav", 70)]) if game == "osu" else {}))
+    for name in ("hits", "holds"):
+        for i, r in enumerate(sp[name]):
+            if game == "osu":
+                r.update(hitsound_set=[2, 4, 8, 6][i % 4], sample_set=1 + i % 2, addition_set=3 - i % 2, custom_set=5 + i, volume=40 + 7 * i, hitsound_file=f"{name}_{i}.wav")
+            elif game == "qua":
+                r.update(keysounds=[f"{name}_{i}_a", f"{name}_{i}_b"])
+            elif game == "bms":
+                r.update(sample=["kick.wav", "snare.wav", "crash.wav"][i % 3])
+            elif game == "o2j":
+                r.update(volume=3 + i % 5, pan=9 + i % 4)
+    if game == "osu":
+        for name in ("bpms", "svs"):
+            for i, r in enumerate(sp[name]):
+                r.update(sample_set=1 + i % 2, sample_set_index=7 + i, volume=55 + 3 * i, kiai=i % 2 == 0)
+                if name == "bpms":
+                    r["metronome"] = 3 + i % 3
+    sp["c14_all_fields"] = True
+    return sp
+
+
 def _build(spec):
     """C12's builder + the C14-only post-processing recorded in the spec (JSON-able): c14_post = {list name: 'sorted'} replaces that
-    list by its .sorted() (rows in time order, row labels permuted), for a chart or for every chart of a mapset"""
+    list by its .sorted() (rows in time order, row labels permuted), for a chart or for every chart of a mapset; c14_all_fields: every
+    dataclass field of the chart(s) and of the set given a non-default value of its own (`_all_fields`); c14_state: one of STATES, what
+    the object went through before it is used as input (`_apply_state`)"""
     obj = build(spec)
     charts = [(obj, spec)] if "maps" not in spec else list(zip(obj.maps, spec["maps"]))
     for m, sp in charts:
         for name, how in (sp.get("c14_post") or {}).items():
             if how == "sorted" and name in chart_lists(m) and len(getattr(m, name)):
                 setattr(m, name, getattr(m, name).sorted())
+        if sp.get("c14_all_fields") or spec.get("c14_all_fields"):
+            _all_fields(m, spec["game"])
+    if spec.get("c14_all_fields") and "maps" in spec and dataclasses.is_dataclass(obj):
+        _all_fields(obj, spec["game"])
+    if spec.get("c14_state"):
+        obj = _apply_state(obj, spec["c14_state"])
     return obj
 
 
@@ -582,14 +688,15 @@ class _Ctx(dict):
     """ctx['other'] (the second osu chart, used by hitsound_copy only) is built when first asked for and then watched like every other
     value (building an OsuMap for every case of every game is the most expensive part of a case)"""
 
-    def __init__(self, vals):
+    def __init__(self, vals, state=None):
         super().__init__()
         self._vals = vals
+        self._state = state  # the second chart has gone through what the first has (a float-typed SOURCE of hitsound_copy)
 
     def __missing__(self, key):
         if key != "other":
             raise KeyError(key)
-        v = V(_build(_other_osu()), "chart", "osu", "second osu chart")
+        v = V(_build(dict(_other_osu(), **({"c14_state": self._state} if self._state else {}))), "chart", "osu", "second osu chart")
         self[key] = v
         self._vals["other"] = v
         return v
@@ -613,7 +720,7 @@ def _base_values(case):
         vals["base"] = V(obj, "chart", game, "input chart")
         for name, l in chart_lists(obj).items():
             vals[name] = V(l, "list", game, f"list {name} of the input chart", name=name)
-    ctx = _Ctx(vals)
+    ctx = _Ctx(vals, spec.get("c14_state"))
     if game == "osu" and case.get("watch_other", True):
         ctx["other"]  # present from the start (as in the cases saved earlier); otherwise it is built when an operation asks for it
     return vals, ctx
@@ -630,7 +737,7 @@ def _clause(op, kind):
 
 def _run_case(case, stats=None):
     """case: dict(spec=, steps=[[value key, op id], ...]); value key: a base value name ('base', 'hits', 'chart0', 'other', ...)
-    or 'r<k>' = the result of step k.  Returns [(what, detail)]."""
+    or 'r<k>' = the result of step k.  go_on: an operation that raises does not end the sequence.  Returns [(what, detail)]."""
     vals, ctx = _base_values(case)
     by_id = {o["id"]: o for o in all_ops()}
     out = []
@@ -680,6 +787,8 @@ def _run_case(case, stats=None):
                 out.append((_clause(op, "unchanged"), f"step {k}: {op['name']} on {v.origin}{' (raised ' + raised + ')' if raised else ''} changed {w.origin}: {'; '.join(d[:3])}"))
                 w.refresh()
         if raised is not None:
+            if case.get("go_on"):
+                continue  # a chain of independent operations on the same input: the next one is still applied
             break
         rk = _kind_of(res)
         if op.get("copy") and (CONVERTERS_ARE_COPIES or not op["clause"].startswith("convert_")):
@@ -757,6 +866,9 @@ def _c14_game(rep, game):
     dm = dict(more)
     # a set whose MIDDLE chart is empty, followed by a chart without hits
     more += [("set3_empty_middle", dict(game=game, maps=[d["full"], dm["all_empty"], dm["one_row_lists"]]))]
+    # (dimensions 14, 17, 18) every field and column with a value of its own, list kinds in another relative order, rows on other grids: first
+    # among the added objects, so that its chart-level operations run in the quick tier too
+    more = [("all_fields_distinct", _all_fields_spec(game)), ("set_all_fields", dict(game=game, maps=[_all_fields_spec(game), d["full"]], c14_all_fields=True))] + more
     stopped = False
     per_spec = {}
 
@@ -788,6 +900,48 @@ def _c14_game(rep, game):
         # same operation twice on the same input
         return q + _scripted(spec, vals) + _twice(spec, vals) + _call_edit_call(spec, vals, ("hits", "holds", "bpms", "svs"))
 
+    def chains_of(spec, keys, size):
+        """every applicable operation on the given input values, `size` independent operations per case (one build of the object serves
+        several operations; an operation that raises does not end the chain; the last result of a chain is also changed in place)"""
+        vals, ctx = _base_values(dict(spec=spec, watch_other=False))
+        out = []
+        for key in keys:
+            if key not in vals:
+                continue
+            ids = [op["id"] for op in ops_for(vals[key]) if not op.get("edit")]
+            out += [[[key, i] for i in ids[a : a + size]] for a in range(0, len(ids), size)]
+        return out
+
+    def state_phase(budget):
+        """(dimension 15) the chart with all lists filled and the two-chart set in every dtype state the library leaves objects in
+        (STATES); quick tier: the chains of chart / mapset level operations alternate between the two states of a pair (rated | stack_edit:
+        integer and bool columns re-typed; grown_from_empty | append_item), then the chains of list operations rotate over the four
+        states; thorough tier: everything on every state"""
+        nonlocal stopped, n
+        full, set2 = d["full"], dict(game=game, maps=[d["full"], d["empty_lists"]])
+        quick = rep.tier == "quick"
+        todo = []
+        for pair in (STATES[:2], STATES[2:]):
+            for base_spec, label in ((full, "full"), (set2, "set2")):
+                chains = chains_of(base_spec, ("base",), 4)
+                for j, steps in enumerate(chains):
+                    for st in ([pair[j % 2]] if quick else pair):
+                        todo.append((f"{label}@{st}", dict(base_spec, c14_state=st), steps))
+        lchains = chains_of(full, [k for k in ("hits", "holds", "bpms", "svs", "samples", "stops", "mines", "rolls")], 8)
+        for j, steps in enumerate(lchains):
+            for st in ([STATES[j % 4]] if quick else STATES):
+                todo.append((f"full@{st}", dict(full, c14_state=st), steps))
+        for label, spec, steps in todo:
+            if rep.out_of_time(*budget):
+                stopped = True
+                return
+            case = dict(spec=spec, steps=steps, go_on=True, watch_other=False)
+            rep.case(case, nontrivial=True)
+            n += 1
+            per_spec[label] = per_spec.get(label, 0) + 1
+            for what, dd in _run_case(case, stats):
+                rep.fail(what, case, f"{label}: {dd}")
+
     def phase(group, budget, only=None, list_share=1.0):
         """the cases of all objects of the group in turn (first case of every object, second case of every object, ...): when the time
         budget ends the run early, every object has had its chart-level operations and the same share of the rest"""
@@ -810,19 +964,22 @@ def _c14_game(rep, game):
     # phase 0: the chart with all lists filled; phase 1: the other two basic charts and the two sets; phase 2: the charts / set of
     # _more_specs; phase 3: random sequences over all of them.  Each phase has its own share of the time budget so that a busy machine
     # cuts the tail of every phase instead of dropping the later phases.
-    phase(specs[:1], (20, 90))
-    phase(specs[1:], (28, 150))
-    phase(more, (37, 200), only=dict(set3_empty_middle=("base", "chart1")), list_share=rep.n(0.5, 1.0))
+    phase(specs[:1], (18, 90))
+    state_phase((24, 140))
+    phase(specs[1:], (30, 190))
+    phase(more, (38, 250), only=dict(set3_empty_middle=("base", "chart1"), set_all_fields=("base", "chart0")), list_share=rep.n(0.5, 1.0))
     # length 2 and 3: the next op is applied to the previous result when that is a chart / list / mapset / pattern (or, 1 in 4, again
     # to an input value)
     M = rep.n(30, 1500)
     M2 = rep.n(12, 500)
     todo = [(lab, sp, M) for lab, sp in specs] + [(lab, sp, M2) for lab, sp in more]
+    # random sequences also start from the chart in each dtype state (a sequence on an input that earlier steps re-typed)
+    todo += [(f"full@{st}", dict(d["full"], c14_state=st), M2) for st in STATES]
     for r in range(M):
         for label, spec, m in todo:
             if r >= m:
                 continue
-            if rep.out_of_time(42, 230):
+            if rep.out_of_time(42, 280):
                 stopped = True
                 break
             L = rng.choice([2, 3])
@@ -830,7 +987,7 @@ def _c14_game(rep, game):
             if len(steps) < 2:
                 continue
             run(label, spec, steps)
-        if stopped and rep.out_of_time(42, 230):
+        if stopped and rep.out_of_time(42, 280):
             break
     rep.extra.update(stats)
     rep.extra["stopped_by_time_budget"] = stopped
@@ -841,11 +998,18 @@ def _c14_game(rep, game):
                  f"every list empty) and a 3-chart set with the empty chart in the middle; every applicable operation "
                  f"({len(rep.extra['operations'])} operation variants: each optional argument of the filters, converters, writers (write and write_file), full_ln, describe, rate with its default and another value; "
                  f"boundary arguments whose result keeps all / no rows) once on every input value (chart, each list, mapset, each chart of it; for the lists of the added objects a random half in the quick tier); the same operation twice on the same input; "
-                 f"{M} (basic) / {M2} (added objects) random sequences of 2-3 operations per object; {n} cases")
+                 f"{M} (basic) / {M2} (added objects, and the full chart in each dtype state) random sequences of 2-3 operations per object; {n} cases")
     rep.bound += ("; call - legitimate in-place change - call again: every chart / mapset level operation (and 9 list operations on the hit, hold, tempo and SV lists) followed by one of "
                   f"{len(_edit_ops())} public in-place changes (list property +=, a frame cell, stack().offset, stack().loc, every list replaced by its reverse sort / by itself + an item) and the same operation again; "
                   "these changes are also steps of the random sequences; write_file to a path that already holds a longer file, twice; converters with move_right_by=-1; the stack read for every column name found in the data")
-    rep.rule = ("a case is (object, sequence of <= 3 operations): all inputs and earlier results are compared with their snapshots after every operation, "
+    rep.bound += (f"; dtype states: the chart with all lists filled and the two-chart set as inputs in each of the states {STATES} (after rate(0.5): integer / bool columns float- / object-typed; after an in-place "
+                  "stack edit: the same re-typing on the input itself; every list rebuilt by appending to an EMPTY list: the empty list's column types and order; after append of an item), the second osu chart "
+                  "(source / target of hitsound_copy) in the same state: every chart / mapset operation in chains of 4 and every list operation in chains of 8 independent operations per case "
+                  "(quick tier: each chain on one state of (rated | stack_edit) and one of (grown_from_empty | append_item), list chains on one of the four; thorough: on all); "
+                  "+ a chart and a set with EVERY dataclass field non-default and different from every field of the same type (all metadata incl. ids, editor fields, banner / genre / lyrics path / cd title / display bpm / "
+                  "bg and fg changes, #LNOBJ ZY, other-header / sample / extended-tempo tables), the game's own columns pairwise different within a row, a hit / SV / sample / stop before the first tempo row, "
+                  "a tempo row / SV / sample after the last note, rows on 1/32, 1/24 and 1/192 of a beat")
+    rep.rule = ("a case is (object, sequence of <= 3 operations - or a chain of <= 8 independent operations on one input of a dtype-state object): all inputs and earlier results are compared with their snapshots after every operation, "
                 "again after the last result (when a copy) has been changed in place, and the last result is compared again after its input has been changed in place; "
                 "after a step that is a legitimate change all snapshots are taken anew, copies made earlier must not have followed the change")
 
